@@ -34,14 +34,14 @@ RULE = ("bounded-exhaustive DFS with (tracker state, shadow state) hashing over 
         ". Rounds 6-7: circuit histories with a socket failure under a forwarded packet followed by a retry of the same message object and the endpoint's retransmission, first sightings that carry the RESENT flag; one long history per four shards with the stock window and 1400-5000 remembered injections, probing early, late and random ids"
         ". Round 8: long histories also under the default window, with retransmissions and bisected probes around the oldest remembered injection"
         ". Round 9: circuit histories in which an idle endpoint's StartPingCheck names the id it will use next, the proxy injects, and the endpoint then sends that id"
-        ". Round 10: circuit histories that start in the upper half of the 32-bit id range (2**31-3, 2**31+5, 3e9)")
+        ". Round 10: circuit histories that start in the upper half of the 32-bit id range (2**31-3, 2**31+5, 3e9). Round 11: in the random walks the proxy also drops endpoint packets (mark_dropped), more of them than the window remembers")
 ASSUMPTIONS = [
     "laws are only demanded for ids whose wire id is newer than the newest injection that aged out of the tracker's "
     "window (the property's own bounded-memory caveat); below it only 'no exception other than ValueError' is asserted",
     "the endpoint never reuses an id for a different packet; out-of-order arrival is by at most the skipped ids",
     "packet-id wrap-around is out of scope (documented TODO in the code)",
 ]
-MUST_REACH = {"circuit_histories_starting_in_the_upper_id_range": 5, "circuit_pings_naming_the_next_id": 50, "states": 500, "evictions_observed": 10, "reverse_after_later_injection": 10, "out_of_order_sends": 10,
+MUST_REACH = {"drops_beyond_what_the_window_remembers": 100, "circuit_histories_starting_in_the_upper_id_range": 5, "circuit_pings_naming_the_next_id": 50, "states": 500, "evictions_observed": 10, "reverse_after_later_injection": 10, "out_of_order_sends": 10,
               "resends_checked": 10, "law_evaluations": 10000, "circuit_forwarded": 100, "circuit_proxy_packets": 50,
               "circuit_replays_of_sent_messages": 10, "circuit_endpoint_resends": 5, "circuit_socket_failures": 20, "circuit_first_sightings_flagged_resent": 50,
               "long_history_injections": 1100, "long_history_probes": 100, "long_history_probes_after_eviction": 50}
@@ -253,12 +253,25 @@ def random_walk(ctx, rng, maxlen, steps):
     t = InjectionTracker(0, maxlen=maxlen)
     m = Model(maxlen, rng.choice([0, 1]))
     path = ""
+    dropped_n = [0]
     for i in range(steps):
         a = rng.choices(ALPHABET, weights=[5, 1, 2, 1, 1, 3])[0]
         if not step(ctx, t, m, a, path + a):
             continue
         path += a
         ctx.ev()
+        # Round 11: the proxy drops packets of the endpoint now and then (an addon's verdict): the tracker is told
+        # (mark_dropped, what ProxiedCircuit.drop_message does); the translation of every other packet is none of a drop's business
+        if m.sent and rng.random() < 0.3:
+            o = rng.choice(m.sent[-6:])
+            fresh = not t.was_dropped(o)
+            t.mark_dropped(o)
+            dropped_n[0] += fresh
+            ctx.count("packets_marked_dropped")
+            if fresh and dropped_n[0] > maxlen:
+                ctx.count("drops_beyond_what_the_window_remembers")
+            if not t.was_dropped(o):
+                ctx.violation("dropped-not-remembered", "a packet just marked dropped is not reported as dropped", {"path": path[-200:], "orig": o})
         if i % 5 == 0 or maxlen <= 50 and i % 2 == 0:
             check_laws(ctx, t, m, path if len(path) < 400 else path[-400:])
     ctx.nontrivial(("walk", maxlen, path))
